@@ -247,10 +247,9 @@ func (k Keeper) LiquidateBorrows(ctx sdk.Context, offsetCounterId uint64) error 
 	}
 	newBorrowIDs := borrowIDs[start:end]
 	for l := range newBorrowIDs {
-		err := k.LiquidateIndividualBorrow(ctx, newBorrowIDs[l], "", false)
-		if err != nil {
-			return err
-		}
+		_ = utils.ApplyFuncIfNoError(ctx, func(ctx sdk.Context) error {
+			return k.LiquidateIndividualBorrow(ctx, newBorrowIDs[l], "", false)
+		})
 	}
 	liquidationOffsetHolder.CurrentOffset = uint64(end)
 	liquidationOffsetHolder.AppId = offsetCounterId
